@@ -49,7 +49,7 @@ theorem vol_all : ∀ Ls : List (List α), (∀ M ∈ Ls, 5 * B ≤ 6 * binSum v
   | [], _ => by simp
   | M :: Ls, h => by
     have h1 := h M (by simp)
-    have h2 := vol_all (v := v) (B := B) Ls (fun M hM => h M (List.mem_cons_of_mem _ hM))
+    have h2 := vol_all Ls (fun M hM => h M (List.mem_cons_of_mem _ hM))
     simp only [List.length_cons, List.flatten_cons, Fit.binSum_append, Nat.mul_succ]
     omega
 
@@ -98,17 +98,18 @@ theorem bins_weight7 {Ls : List (List α)} (hp : Ls.Pairwise (Rel v B)) (h2 : 2 
   by_cases hch : ch = []
   · subst hch
     left
+    rw [hlen] at h2
     rw [hlen, hw]
     simp only [Nat.mul_add]
-    match sm, hsm, hsmmem with
-    | [], _, _ =>
+    match sm, hsm, hsmmem, h2 with
+    | [], _, _, _ =>
       simp only [List.length_nil, List.flatten_nil]
       simp only [binSum, List.map_nil, sumL] at *
       omega
-    | [S], _, hsmmem =>
-      match bg, hbig', hbgmem with
-      | [], _, _ => simp at h2
-      | L :: bg', hbig', hbgmem =>
+    | [S], _, hsmmem, h2 =>
+      match bg, hbig', hbgmem, h2 with
+      | [], _, _, h2 => simp at h2
+      | L :: bg', hbig', hbgmem, _ =>
         have hS := hsmmem S (by simp)
         have hL := hbgmem L (by simp)
         have hne : S ≠ L := by
@@ -159,6 +160,520 @@ theorem bins_weight7 {Ls : List (List α)} (hp : Ls.Pairwise (Rel v B)) (h2 : 2 
       simp only [List.length_cons, List.length_nil, List.flatten_cons, List.flatten_nil, List.append_nil]
       omega
 
+/-! ### the finer case analysis behind `+ 6` -/
+
+/-- bins that are all at least `3/4` full -/
+theorem vol34_all : ∀ Ls : List (List α), (∀ M ∈ Ls, 3 * B ≤ 4 * binSum v M) →
+    3 * (B * Ls.length) ≤ 4 * binSum v Ls.flatten
+  | [], _ => by simp
+  | M :: Ls, h => by
+    have h1 := h M (by simp)
+    have h2 := vol34_all Ls (fun M hM => h M (List.mem_cons_of_mem _ hM))
+    simp only [List.length_cons, List.flatten_cons, Fit.binSum_append, Nat.mul_succ]
+    omega
+
+theorem vol34_one : ∀ Ls : List (List α), (∀ M ∈ Ls, 3 * B ≤ 4 * binSum v M ∨ 4 * binSum v M ≤ B) →
+    Ls.Pairwise (fun L M => B < binSum v L + binSum v M) →
+    3 * (B * Ls.length) ≤ 4 * binSum v Ls.flatten + 3 * B
+  | [], _, _ => by simp
+  | M :: Ls, h, hp => by
+    rw [List.pairwise_cons] at hp
+    simp only [List.length_cons, List.flatten_cons, Fit.binSum_append, Nat.mul_succ]
+    rcases h M (by simp) with h1 | h1
+    · have h2 := vol34_one Ls (fun M hM => h M (List.mem_cons_of_mem _ hM)) hp.2
+      omega
+    · have h2 := vol34_all (v := v) (B := B) Ls (fun M' hM' => by have := hp.1 M' hM'; omega)
+      omega
+
+/-- big bins that are at least `2/3` full weigh at least `12/10` each -/
+theorem big_total12 : ∀ Ls : List (List α), (∀ L ∈ Ls, FF17.isBig v B L = true ∧ 2 * B ≤ 3 * binSum v L) →
+    12 * (B * Ls.length) ≤ binSum (W v B) Ls.flatten
+  | [], _ => by simp
+  | M :: Ls, h => by
+    have h1 := big_weight' M (h M (by simp)).1
+    have h1' := (h M (by simp)).2
+    have h2 := big_total12 Ls (fun M hM => h M (List.mem_cons_of_mem _ hM))
+    simp only [List.length_cons, List.flatten_cons, Fit.binSum_append, Nat.mul_succ]
+    omega
+
+/-- **Lemma B, refined once more**: with at least two bins, either fewer than `7/10` of a bin is lost, or all
+    bins but one are at least `3/4` full, or no bin is big and fewer than `8/10` of a bin is lost -/
+theorem bins_weight6 {Ls : List (List α)} (hp : Ls.Pairwise (Rel v B)) (h2 : 2 ≤ Ls.length) (hB : 0 < B) :
+    10 * (B * Ls.length) + 1 ≤ binSum (W v B) Ls.flatten + 7 * B ∨
+    3 * (B * Ls.length) ≤ 4 * binSum v Ls.flatten + 3 * B ∨
+    ((∀ L ∈ Ls, FF17.isBig v B L = false) ∧
+      10 * (B * Ls.length) + 1 ≤ binSum (W v B) Ls.flatten + 8 * B) := by
+  obtain ⟨hlen, hw⟩ := split_kinds (v := v) (B := B) (W v B) Ls
+  have hbigcl : ∀ L ∈ Ls.filter (kBig (v := v) (B := B)), FF17.isBig v B L = true :=
+    fun L hL => by simpa [kBig] using (List.mem_filter.1 hL).2
+  have hbig := big_total (v := v) (B := B) (Ls.filter (kBig (v := v) (B := B))) hbigcl
+  have hbig' := big_total' (v := v) (B := B) (Ls.filter (kBig (v := v) (B := B))) hbigcl
+  have hsm := small_count (v := v) (B := B) (Ls.filter (kSmall (v := v) (B := B)))
+    (fun L hL => by simpa [kSmall] using (List.mem_filter.1 hL).2) (hp.filter _)
+  have hchcl : ∀ L ∈ Ls.filter (kChain (v := v) (B := B)), FF17.isBig v B L = false ∧ 2 ≤ L.length :=
+    fun L hL => by simpa [kChain] using (List.mem_filter.1 hL).2
+  have hchp : (Ls.filter (kChain (v := v) (B := B))).Pairwise (Rel v B) := hp.filter _
+  have hbgmem : ∀ L ∈ Ls.filter (kBig (v := v) (B := B)), L ∈ Ls ∧ kBig (v := v) (B := B) L = true :=
+    fun L hL => List.mem_filter.1 hL
+  have hsmmem : ∀ L ∈ Ls.filter (kSmall (v := v) (B := B)), L ∈ Ls ∧ kSmall (v := v) (B := B) L = true :=
+    fun L hL => List.mem_filter.1 hL
+  have hchmem : ∀ L ∈ Ls.filter (kChain (v := v) (B := B)), L ∈ Ls ∧ kChain (v := v) (B := B) L = true :=
+    fun L hL => List.mem_filter.1 hL
+  have hbgnil : Ls.filter (kBig (v := v) (B := B)) = [] → ∀ L ∈ Ls, FF17.isBig v B L = false := by
+    intro h L hL
+    have := (List.filter_eq_nil_iff.1 h) L hL
+    simpa [kBig] using this
+  generalize Ls.filter (kBig (v := v) (B := B)) = bg at *
+  generalize Ls.filter (kSmall (v := v) (B := B)) = sm at *
+  generalize Ls.filter (kChain (v := v) (B := B)) = ch at *
+  by_cases hch : ch = []
+  · subst hch
+    left
+    rw [hlen] at h2
+    rw [hlen, hw]
+    simp only [Nat.mul_add]
+    match sm, hsm, hsmmem, h2 with
+    | [], _, _, _ =>
+      simp only [List.length_nil, List.flatten_nil]
+      simp only [binSum, List.map_nil, sumL] at *
+      omega
+    | [S], _, hsmmem, h2 =>
+      match bg, hbig', hbgmem, h2 with
+      | [], _, _, h2 => simp at h2
+      | L :: bg', hbig', hbgmem, _ =>
+        have hS := hsmmem S (by simp)
+        have hL := hbgmem L (by simp)
+        have hne : S ≠ L := by
+          rintro rfl
+          have h1 := hS.2
+          have h3 := hL.2
+          simp only [kSmall, kBig, Bool.and_eq_true, Bool.not_eq_true'] at h1 h3
+          rw [h3] at h1
+          simp at h1
+        have hsum := pairwise_sum hp hS.1 hL.1 hne
+        have hb := hbig' L (by simp)
+        have hwS := weight_ge (v := v) (B := B) S
+        simp only [List.length_cons, List.length_nil, List.flatten_cons, List.flatten_nil, List.append_nil,
+          Fit.binSum_append, Nat.mul_succ] at hb ⊢
+        simp only [binSum, List.map_nil, sumL] at *
+        omega
+  · obtain ⟨L', hL', hcw⟩ := chain_weight ch hch hchcl hchp
+    match sm, hsm, hsmmem with
+    | [], _, _ =>
+      by_cases ht : B < 4 * binSum v L'
+      · left
+        rw [hlen, hw]
+        simp only [Nat.mul_add]
+        simp only [List.length_nil, List.flatten_nil]
+        simp only [binSum, List.map_nil, sumL] at *
+        omega
+      · right; left
+        refine vol34_one Ls (fun M hM => ?_) (pairwise_rel_sum hp)
+        by_cases hML : M = L'
+        · subst hML; right; omega
+        · left
+          have := pairwise_sum hp hM (hchmem L' hL').1 hML
+          omega
+    | [S], _, hsmmem =>
+      have hS := hsmmem S (by simp)
+      have hL := hchmem L' hL'
+      have hne : S ≠ L' := by
+        rintro rfl
+        have h1 := hS.2
+        have h3 := hL.2
+        simp only [kSmall, kChain, Bool.and_eq_true, decide_eq_true_eq] at h1 h3
+        omega
+      have hsum := pairwise_sum hp hS.1 hL.1 hne
+      -- the single item of `S`
+      have hSk := hS.2
+      simp only [kSmall, Bool.and_eq_true, Bool.not_eq_true', decide_eq_true_eq] at hSk
+      have hwS : 12 * binSum v S + min B (6 * binSum v S - B) ≤ binSum (W v B) S := by
+        match S, hSk with
+        | [], _ => simp [binSum, sumL]
+        | [x], hSk =>
+          have hx := not_big hSk.1 x (by simp)
+          simp only [binSum, List.map_cons, List.map_nil, sumL, W, wt, bonus, if_neg (Nat.not_lt.2 hx)]
+          omega
+        | _ :: _ :: _, hSk => simp at hSk
+      -- every big bin overflows with `S`
+      have hbgS : ∀ L ∈ bg, B < binSum v L + binSum v S := by
+        intro L hL
+        have hLm := hbgmem L hL
+        have hneL : L ≠ S := by
+          rintro rfl
+          have h1 := hS.2
+          have h3 := hLm.2
+          simp only [kSmall, kBig, Bool.and_eq_true, Bool.not_eq_true'] at h1 h3
+          rw [h3] at h1
+          simp at h1
+        exact pairwise_sum hp hLm.1 hS.1 hneL
+      by_cases hx3 : B ≤ 3 * binSum v S
+      · left
+        rw [hlen, hw]
+        simp only [Nat.mul_add]
+        simp only [List.length_cons, List.length_nil, List.flatten_cons, List.flatten_nil, List.append_nil]
+        omega
+      · have hbig12 := big_total12 (v := v) (B := B) bg
+          (fun L hL => ⟨hbigcl L hL, by have := hbgS L hL; omega⟩)
+        match bg, hbig, hbig12, hbgnil with
+        | [], _, _, hbgnil =>
+          right; right
+          refine ⟨hbgnil rfl, ?_⟩
+          rw [hlen, hw]
+          simp only [Nat.mul_add]
+          simp only [List.length_cons, List.length_nil, List.flatten_cons, List.flatten_nil, List.append_nil]
+          simp only [binSum, List.map_nil, sumL] at *
+          omega
+        | L :: bg', hbig, hbig12, _ =>
+          left
+          rw [hlen, hw]
+          simp only [Nat.mul_add]
+          simp only [List.length_cons, List.length_nil, List.flatten_cons, List.flatten_nil, List.append_nil,
+            Fit.binSum_append, Nat.mul_succ] at hbig hbig12 ⊢
+          omega
+
 end Bins
+
+/-! ## 2. The bound `1.7·OPT + 0.7` for every run that keeps the invariant -/
+
+/-- with capacity 0 there is a single bin -/
+theorem one_bin_of_zero {v : α → Nat} {B : Nat} {items : List α} {b : Bins α} (h : Inv2 v B items b)
+    (hB : B = 0) : b.lists.length ≤ 1 := by
+  have hp := h.pairwise
+  match hL : b.lists, hp with
+  | [], _ => simp
+  | [_], _ => simp
+  | L :: L' :: rest, hp =>
+    exfalso
+    have hr := rel_sum ((List.pairwise_cons.1 hp).1 L' (by simp))
+    have h1 : binSum v L ≤ B := h.inv.le _ (by rw [h.inv.cons, hL]; simp)
+    have h2 : binSum v L' ≤ B := h.inv.le _ (by rw [h.inv.cons, hL]; simp)
+    omega
+
+theorem inv2_bound7 {v : α → Nat} {B m : Nat} {items : List α} {b : Bins α} (h : Inv2 v B items b)
+    (hne : items ≠ []) (hm : Packable B m (items.map v)) : 10 * b.lists.length ≤ 17 * m + 7 := by
+  have hm1 : 1 ≤ m := FFD.packable_pos hm (by simpa using hne)
+  have hp := h.pairwise
+  by_cases hB : B = 0
+  · have := one_bin_of_zero h hB
+    omega
+  · by_cases h2 : 2 ≤ b.lists.length
+    · have hO := packable_weight_le hm
+      have hV : binSum v items ≤ m * B := Fit.packing_lower_bound hm
+      rcases bins_weight7 hp h2 (Nat.pos_of_ne_zero hB) with hW | hW
+      · rw [Fit.binSum_perm h.inv.perm] at hW
+        have h1 : B * (10 * b.lists.length) < B * (17 * m + 8) := by
+          rw [Nat.mul_left_comm, Nat.mul_add, Nat.mul_left_comm B 17 m]
+          omega
+        have := Nat.lt_of_mul_lt_mul_left h1
+        omega
+      · rw [Fit.binSum_perm h.inv.perm] at hW
+        have h1 : B * (5 * b.lists.length) ≤ B * (6 * m + 5) := by
+          rw [Nat.mul_left_comm, Nat.mul_add, Nat.mul_left_comm B 6 m, Nat.mul_comm B m]
+          omega
+        have := Nat.le_of_mul_le_mul_left h1 (Nat.pos_of_ne_zero hB)
+        omega
+    · omega
+
+/-! ## 3. The bound `1.7·OPT + 0.6` -/
+
+/-- values of at most `B/2` each: the bonus is at most `3·total` -/
+theorem bonusL_small_items (B : Nat) : ∀ l : List Nat, (∀ a ∈ l, 2 * a ≤ B) → bonusL B l ≤ 3 * sumL l
+  | [], _ => by simp [bonusL_nil, sumL]
+  | a :: l, h => by
+    have ha := h a (by simp)
+    have ih := bonusL_small_items B l (fun c hc => h c (List.mem_cons_of_mem _ hc))
+    simp only [bonusL_cons, sumL, bonus, if_neg (Nat.not_lt.2 ha)]
+    omega
+
+/-- **Lemma A without big values**: values of at most `B/2` each that fit into one bin weigh at most `15/10` -/
+theorem weight_bin_le_small {B : Nat} {l : List Nat} (h : sumL l ≤ B) (hs : ∀ a ∈ l, 2 * a ≤ B) :
+    sumL (l.map (wt B)) ≤ 15 * B := by
+  have := bonusL_small_items B l hs
+  rw [sumL_map_wt]
+  omega
+
+theorem groups_weight_le_small (B : Nat) : ∀ Q : List (List Nat), (∀ l ∈ Q, sumL l ≤ B) →
+    (∀ l ∈ Q, ∀ a ∈ l, 2 * a ≤ B) → binSum (wt B) Q.flatten ≤ 15 * (B * Q.length)
+  | [], _, _ => by simp [binSum, sumL]
+  | l :: Q, h, hs => by
+    have h1 : binSum (wt B) l ≤ 15 * B := weight_bin_le_small (h l List.mem_cons_self) (hs l List.mem_cons_self)
+    have h2 := groups_weight_le_small B Q (fun l' hl' => h l' (List.mem_cons_of_mem _ hl'))
+      (fun l' hl' => hs l' (List.mem_cons_of_mem _ hl'))
+    simp only [List.flatten_cons, Fit.binSum_append, List.length_cons, Nat.mul_succ]
+    omega
+
+/-- **the optimum's side without big items**: items of at most `B/2` each that can be packed into `m` bins weigh
+    at most `15·B·m` -/
+theorem packable_weight_le_small {v : α → Nat} {B m : Nat} {items : List α}
+    (hs : ∀ x ∈ items, 2 * v x ≤ B) (hm : Packable B m (items.map v)) :
+    binSum (W v B) items ≤ 15 * (B * m) := by
+  obtain ⟨Q, hk, hp, hT⟩ := LPT43.packable_partition hm
+  have h1 : binSum (W v B) items = binSum (wt B) (items.map v) := by
+    simp only [binSum, List.map_map]; rfl
+  rw [h1, ← Fit.binSum_perm hp, ← hk]
+  refine groups_weight_le_small B Q hT (fun l hl a ha => ?_)
+  have : a ∈ items.map v := hp.mem_iff.1 (List.mem_flatten.2 ⟨l, hl, ha⟩)
+  obtain ⟨x, hx, rfl⟩ := List.mem_map.1 this
+  exact hs x hx
+
+example : binSum (W id 10) [5, 5, 4, 3, 3] ≤ 15 * (10 * 2) :=
+  packable_weight_le_small (v := id) (by decide) ⟨[0, 0, 1, 1, 1], ⟨rfl, by decide⟩, by decide⟩
+
+theorem inv2_bound6 {v : α → Nat} {B m : Nat} {items : List α} {b : Bins α} (h : Inv2 v B items b)
+    (hne : items ≠ []) (hm : Packable B m (items.map v)) : 10 * b.lists.length ≤ 17 * m + 6 := by
+  have hm1 : 1 ≤ m := FFD.packable_pos hm (by simpa using hne)
+  have hp := h.pairwise
+  by_cases hB : B = 0
+  · have := one_bin_of_zero h hB
+    omega
+  · by_cases h2 : 2 ≤ b.lists.length
+    · have hO := packable_weight_le hm
+      have hV : binSum v items ≤ m * B := Fit.packing_lower_bound hm
+      have hm2 : 2 ≤ m := by
+        have := Fit.anyfit_lt_two_opt h.inv.isPacking h.inv.af h2 hm
+        omega
+      rcases bins_weight6 hp h2 (Nat.pos_of_ne_zero hB) with hW | hW | ⟨hnb, hW⟩
+      · rw [Fit.binSum_perm h.inv.perm] at hW
+        have h1 : B * (10 * b.lists.length) < B * (17 * m + 7) := by
+          rw [Nat.mul_left_comm, Nat.mul_add, Nat.mul_left_comm B 17 m]
+          omega
+        have := Nat.lt_of_mul_lt_mul_left h1
+        omega
+      · rw [Fit.binSum_perm h.inv.perm] at hW
+        have h1 : B * (3 * b.lists.length) ≤ B * (4 * m + 3) := by
+          rw [Nat.mul_left_comm, Nat.mul_add, Nat.mul_left_comm B 4 m, Nat.mul_comm B m]
+          omega
+        have := Nat.le_of_mul_le_mul_left h1 (Nat.pos_of_ne_zero hB)
+        omega
+      · rw [Fit.binSum_perm h.inv.perm] at hW
+        have hs : ∀ x ∈ items, 2 * v x ≤ B := by
+          intro x hx
+          obtain ⟨L, hL, hxL⟩ := List.mem_flatten.1 (h.inv.perm.mem_iff.2 hx)
+          exact not_big (hnb L hL) x hxL
+        have hO' := packable_weight_le_small hs hm
+        have h1 : B * (10 * b.lists.length) < B * (15 * m + 8) := by
+          rw [Nat.mul_left_comm, Nat.mul_add, Nat.mul_left_comm B 15 m]
+          omega
+        have := Nat.lt_of_mul_lt_mul_left h1
+        omega
+    · omega
+
+
+/-! ## 4. Counting the big items: `1.5·OPT + 0.2·k + 0.7`, where `k` items exceed `B/2` -/
+
+/-- the number of items above `B/2` -/
+def nBig (v : α → Nat) (B : Nat) (items : List α) : Nat := items.countP (fun x => decide (B < 2 * v x))
+
+/-- **Lemma A, counting the big values**: `15/10` plus `2/10` for every value above `B/2` -/
+theorem weight_bin_le_count {B : Nat} {l : List Nat} (h : sumL l ≤ B) :
+    sumL (l.map (wt B)) ≤ 15 * B + 2 * (B * l.countP (fun a => decide (B < 2 * a))) := by
+  by_cases hc : l.countP (fun a => decide (B < 2 * a)) = 0
+  · have hs : ∀ a ∈ l, 2 * a ≤ B := by
+      intro a ha
+      have := (List.countP_eq_zero.1 hc) a ha
+      simp only [decide_eq_true_eq] at this
+      omega
+    have := weight_bin_le_small h hs
+    omega
+  · have h1 : B * 1 ≤ B * l.countP (fun a => decide (B < 2 * a)) := Nat.mul_le_mul_left B (by omega)
+    have := weight_bin_le h
+    omega
+
+theorem groups_weight_le_count (B : Nat) : ∀ Q : List (List Nat), (∀ l ∈ Q, sumL l ≤ B) →
+    binSum (wt B) Q.flatten ≤ 15 * (B * Q.length) + 2 * (B * Q.flatten.countP (fun a => decide (B < 2 * a)))
+  | [], _ => by simp [binSum, sumL]
+  | l :: Q, h => by
+    have h1 : binSum (wt B) l ≤ _ := weight_bin_le_count (h l List.mem_cons_self)
+    have h2 := groups_weight_le_count B Q (fun l' hl' => h l' (List.mem_cons_of_mem _ hl'))
+    simp only [List.flatten_cons, Fit.binSum_append, List.length_cons, Nat.mul_succ, List.countP_append,
+      Nat.mul_add] at h1 h2 ⊢
+    omega
+
+/-- **the optimum's side, counting the big items** -/
+theorem packable_weight_le_count {v : α → Nat} {B m : Nat} {items : List α}
+    (hm : Packable B m (items.map v)) :
+    binSum (W v B) items ≤ 15 * (B * m) + 2 * (B * nBig v B items) := by
+  obtain ⟨Q, hk, hp, hT⟩ := LPT43.packable_partition hm
+  have h1 : binSum (W v B) items = binSum (wt B) (items.map v) := by
+    simp only [binSum, List.map_map]; rfl
+  have h2 : nBig v B items = (items.map v).countP (fun a => decide (B < 2 * a)) := by
+    simp only [nBig, List.countP_map]; rfl
+  rw [h1, h2, ← Fit.binSum_perm hp, ← hk, ← hp.countP_eq]
+  exact groups_weight_le_count B Q hT
+
+example : binSum (W id 10) [6, 5, 4, 3] ≤ 15 * (10 * 2) + 2 * (10 * nBig id 10 [6, 5, 4, 3]) :=
+  packable_weight_le_count (v := id) ⟨[0, 1, 0, 1], ⟨rfl, by decide⟩, by decide⟩
+
+theorem inv2_bound_big {v : α → Nat} {B m : Nat} {items : List α} {b : Bins α} (h : Inv2 v B items b)
+    (hne : items ≠ []) (hm : Packable B m (items.map v)) :
+    10 * b.lists.length ≤ 15 * m + 2 * nBig v B items + 7 ∧
+    (1 ≤ nBig v B items → 10 * b.lists.length ≤ 15 * m + 2 * nBig v B items + 6) := by
+  have hm1 : 1 ≤ m := FFD.packable_pos hm (by simpa using hne)
+  have hp := h.pairwise
+  by_cases hB : B = 0
+  · have := one_bin_of_zero h hB
+    omega
+  · by_cases h2 : 2 ≤ b.lists.length
+    · have hO := packable_weight_le_count hm
+      have hV : binSum v items ≤ m * B := Fit.packing_lower_bound hm
+      have hm2 : 2 ≤ m := by
+        have := Fit.anyfit_lt_two_opt h.inv.isPacking h.inv.af h2 hm
+        omega
+      rcases bins_weight6 hp h2 (Nat.pos_of_ne_zero hB) with hW | hW | ⟨hnb, hW⟩
+      · rw [Fit.binSum_perm h.inv.perm] at hW
+        have h1 : B * (10 * b.lists.length) < B * (15 * m + 2 * nBig v B items + 7) := by
+          rw [Nat.mul_left_comm, Nat.mul_add, Nat.mul_add, Nat.mul_left_comm B 15 m,
+            Nat.mul_left_comm B 2 (nBig v B items)]
+          omega
+        have := Nat.lt_of_mul_lt_mul_left h1
+        omega
+      · rw [Fit.binSum_perm h.inv.perm] at hW
+        have h1 : B * (3 * b.lists.length) ≤ B * (4 * m + 3) := by
+          rw [Nat.mul_left_comm, Nat.mul_add, Nat.mul_left_comm B 4 m, Nat.mul_comm B m]
+          omega
+        have := Nat.le_of_mul_le_mul_left h1 (Nat.pos_of_ne_zero hB)
+        omega
+      · rw [Fit.binSum_perm h.inv.perm] at hW
+        have hs : ∀ x ∈ items, 2 * v x ≤ B := by
+          intro x hx
+          obtain ⟨L, hL, hxL⟩ := List.mem_flatten.1 (h.inv.perm.mem_iff.2 hx)
+          exact not_big (hnb L hL) x hxL
+        have hk0 : nBig v B items = 0 := by
+          rw [nBig, List.countP_eq_zero]
+          intro x hx
+          have := hs x hx
+          simp only [decide_eq_true_eq]
+          omega
+        have h1 : B * (10 * b.lists.length) < B * (15 * m + 2 * nBig v B items + 8) := by
+          rw [Nat.mul_left_comm, Nat.mul_add, Nat.mul_add, Nat.mul_left_comm B 15 m,
+            Nat.mul_left_comm B 2 (nBig v B items)]
+          omega
+        have := Nat.lt_of_mul_lt_mul_left h1
+        omega
+    · omega
+
+/-- **the absolute bound, partial**: for `OPT ≤ 2`, for `OPT ≡ 0, 3, 6, 9 (mod 10)`, and when at most `OPT − 3`
+    items exceed `B/2` -/
+theorem inv2_abs_partial {v : α → Nat} {B m : Nat} {items : List α} {b : Bins α} (h : Inv2 v B items b)
+    (hne : items ≠ []) (hm : Packable B m (items.map v))
+    (hside : m ≤ 2 ∨ m % 10 = 0 ∨ m % 10 = 3 ∨ m % 10 = 6 ∨ m % 10 = 9 ∨ nBig v B items + 3 ≤ m) :
+    10 * b.lists.length ≤ 17 * m := by
+  have hm1 : 1 ≤ m := FFD.packable_pos hm (by simpa using hne)
+  have h6 := inv2_bound6 h hne hm
+  have hb := inv2_bound_big h hne hm
+  by_cases h2 : 2 ≤ b.lists.length
+  · have := Fit.anyfit_lt_two_opt h.inv.isPacking h.inv.af h2 hm
+    omega
+  · omega
+
+variable {v : α → Nat} {B m : Nat} {items : List α} {b : Bins α}
+
+/-! ## 5. The theorems -/
+
+/-- the bound `+ 0.7` for every loop whose step function is an "almost first fit" step (`Step2`) -/
+theorem gen_seventeen_tenths_plus_7 {step : Bins α → α → Bins α} (hstep : ∀ b x, Step2 v B b x (step b x))
+    (hne : items ≠ []) (hok : Fit.genLoop v B step (Bins.new 1) items = .ok b)
+    (hm : Packable B m (items.map v)) : 10 * b.lists.length ≤ 17 * m + 7 :=
+  inv2_bound7 (gen_inv2 hstep hok) hne hm
+
+/-- the bound `+ 0.6` for every "almost first fit" loop -/
+theorem gen_seventeen_tenths_plus_6 {step : Bins α → α → Bins α} (hstep : ∀ b x, Step2 v B b x (step b x))
+    (hne : items ≠ []) (hok : Fit.genLoop v B step (Bins.new 1) items = .ok b)
+    (hm : Packable B m (items.map v)) : 10 * b.lists.length ≤ 17 * m + 6 :=
+  inv2_bound6 (gen_inv2 hstep hok) hne hm
+
+/-- **first fit uses at most `1.7 · OPT + 0.7` bins** (Xia and Tan 2010) -/
+theorem ff_seventeen_tenths_plus_7 (hne : items ≠ []) (hok : ffOnline v B items = .ok b)
+    (hm : Packable B m (items.map v)) : 10 * b.lists.length ≤ 17 * m + 7 :=
+  inv2_bound7 (ffOnline_inv2 hok) hne hm
+
+/-- **best fit uses at most `1.7 · OPT + 0.7` bins** -/
+theorem bf_seventeen_tenths_plus_7 (hne : items ≠ []) (hok : bfOnline v B items = .ok b)
+    (hm : Packable B m (items.map v)) : 10 * b.lists.length ≤ 17 * m + 7 :=
+  inv2_bound7 (bfOnline_inv2 hok) hne hm
+
+/-- **first fit uses at most `1.7 · OPT + 0.6` bins** -/
+theorem ff_seventeen_tenths_plus_6 (hne : items ≠ []) (hok : ffOnline v B items = .ok b)
+    (hm : Packable B m (items.map v)) : 10 * b.lists.length ≤ 17 * m + 6 :=
+  inv2_bound6 (ffOnline_inv2 hok) hne hm
+
+/-- **best fit uses at most `1.7 · OPT + 0.6` bins** -/
+theorem bf_seventeen_tenths_plus_6 (hne : items ≠ []) (hok : bfOnline v B items = .ok b)
+    (hm : Packable B m (items.map v)) : 10 * b.lists.length ≤ 17 * m + 6 :=
+  inv2_bound6 (bfOnline_inv2 hok) hne hm
+
+/-- first fit: `1.5 · OPT + 0.2 · k + 0.7`, where `k` is the number of items above `B/2`
+    (and `+ 0.6` when there is such an item) -/
+theorem ff_fifteen_tenths_big (hne : items ≠ []) (hok : ffOnline v B items = .ok b)
+    (hm : Packable B m (items.map v)) :
+    10 * b.lists.length ≤ 15 * m + 2 * nBig v B items + 7 ∧
+    (1 ≤ nBig v B items → 10 * b.lists.length ≤ 15 * m + 2 * nBig v B items + 6) :=
+  inv2_bound_big (ffOnline_inv2 hok) hne hm
+
+theorem bf_fifteen_tenths_big (hne : items ≠ []) (hok : bfOnline v B items = .ok b)
+    (hm : Packable B m (items.map v)) :
+    10 * b.lists.length ≤ 15 * m + 2 * nBig v B items + 7 ∧
+    (1 ≤ nBig v B items → 10 * b.lists.length ≤ 15 * m + 2 * nBig v B items + 6) :=
+  inv2_bound_big (bfOnline_inv2 hok) hne hm
+
+/- The requested statement (open in general):
+     theorem ff_seventeen_tenths_abs (hne : items ≠ []) (hok : ffOnline v B items = .ok b)
+         (hm : Packable B m (items.map v)) : 10 * b.lists.length ≤ 17 * m
+   What is proved is the same conclusion under the side condition `hside`. -/
+theorem ff_seventeen_tenths_abs_partial (hne : items ≠ []) (hok : ffOnline v B items = .ok b)
+    (hm : Packable B m (items.map v))
+    (hside : m ≤ 2 ∨ m % 10 = 0 ∨ m % 10 = 3 ∨ m % 10 = 6 ∨ m % 10 = 9 ∨ nBig v B items + 3 ≤ m) :
+    10 * b.lists.length ≤ 17 * m :=
+  inv2_abs_partial (ffOnline_inv2 hok) hne hm hside
+
+theorem bf_seventeen_tenths_abs_partial (hne : items ≠ []) (hok : bfOnline v B items = .ok b)
+    (hm : Packable B m (items.map v))
+    (hside : m ≤ 2 ∨ m % 10 = 0 ∨ m % 10 = 3 ∨ m % 10 = 6 ∨ m % 10 = 9 ∨ nBig v B items + 3 ≤ m) :
+    10 * b.lists.length ≤ 17 * m :=
+  inv2_abs_partial (bfOnline_inv2 hok) hne hm hside
+
+/-- small cases: `OPT = 1` gives one bin, `OPT = 2` at most three bins -/
+theorem ff_opt_one (hne : items ≠ []) (hok : ffOnline v B items = .ok b)
+    (hm : Packable B 1 (items.map v)) : b.lists.length = 1 := by
+  have h := ffOnline_inv2 hok
+  have := inv2_abs_partial h hne hm (Or.inl (by omega))
+  have hpos : b.lists.length ≠ 0 := by
+    intro h0
+    have := h.inv.perm
+    rw [List.length_eq_zero_iff.1 h0] at this
+    exact hne (by simpa using this.symm)
+  omega
+
+theorem ff_opt_two (hne : items ≠ []) (hok : ffOnline v B items = .ok b)
+    (hm : Packable B 2 (items.map v)) : b.lists.length ≤ 3 := by
+  have := inv2_abs_partial (ffOnline_inv2 hok) hne hm (Or.inl (by omega))
+  omega
+
+theorem bf_opt_one (hne : items ≠ []) (hok : bfOnline v B items = .ok b)
+    (hm : Packable B 1 (items.map v)) : b.lists.length = 1 := by
+  have h := bfOnline_inv2 hok
+  have := inv2_abs_partial h hne hm (Or.inl (by omega))
+  have hpos : b.lists.length ≠ 0 := by
+    intro h0
+    have := h.inv.perm
+    rw [List.length_eq_zero_iff.1 h0] at this
+    exact hne (by simpa using this.symm)
+  omega
+
+theorem bf_opt_two (hne : items ≠ []) (hok : bfOnline v B items = .ok b)
+    (hm : Packable B 2 (items.map v)) : b.lists.length ≤ 3 := by
+  have := inv2_abs_partial (bfOnline_inv2 hok) hne hm (Or.inl (by omega))
+  omega
+
+/-! ## 6. Non-vacuity -/
+
+example : 10 * 10 ≤ 17 * 6 + 7 := ff_seventeen_tenths_plus_7 (by decide) bad_ff bad_packable
+example : 10 * 10 ≤ 17 * 6 + 7 := bf_seventeen_tenths_plus_7 (by decide) bad_bf bad_packable
+example : 10 * 10 ≤ 17 * 6 + 6 := ff_seventeen_tenths_plus_6 (by decide) bad_ff bad_packable
+example : 10 * 10 ≤ 17 * 6 + 6 := bf_seventeen_tenths_plus_6 (by decide) bad_bf bad_packable
+/-- on the classical bad instance (`OPT = 6`) the absolute bound is obtained, and it is tight: `10 = ⌊10.2⌋` -/
+example : 10 * 10 ≤ 17 * 6 := ff_seventeen_tenths_abs_partial (by decide) bad_ff bad_packable (by decide)
+example : 10 * 10 ≤ 17 * 6 := bf_seventeen_tenths_abs_partial (by decide) bad_bf bad_packable (by decide)
 
 end Prtpy.FF17Abs
